@@ -542,7 +542,7 @@ def _psign(ex, st, ins, args, m):
     return lanewise2(args, f)
 
 
-@model(r'llvm\.x86\.(ssse3|avx2|avx512)\.pmadd\.ub\.sw(\.\d+)?')
+@model(r'llvm\.x86\.(ssse3|avx2|avx512)\.(pmadd\.ub\.sw|pmaddubs\.w)(\.\d+)?')
 def _pmaddubsw(ex, st, ins, args, m):
     a, b = vals(args[0]), vals(args[1])
     out = []
@@ -558,7 +558,7 @@ def _pmaddubsw(ex, st, ins, args, m):
     return out
 
 
-@model(r'llvm\.x86\.(sse2|avx2|avx512)\.pmadd\.wd(\.\d+)?')
+@model(r'llvm\.x86\.(sse2|avx2|avx512)\.(pmadd\.wd|pmaddw\.d)(\.\d+)?')
 def _pmaddwd(ex, st, ins, args, m):
     a, b = vals(args[0]), vals(args[1])
     out = []
